@@ -386,7 +386,48 @@ def rule_zero_budget(ctx) -> None:
     zero_budget_rule(ctx, "C17.BOUNDARY", ["clematis.engine.orchestrator.core", "clematis.engine.stages.t1", "clematis.engine.stages.t2.core", "clematis.engine.stages.t3.bundle", "clematis.engine.stages.t3.policy", "clematis.engine.stages.t3.legacy"], 6)
 
 
+def rule_budget_scope(ctx) -> None:
+    """"slice budgets clamp stage work (propagation pops and layers ...)": the stage reports - and the orchestrator compares with
+    the budget - the work of the whole slice.  A bound derived from the per-slice budget that is applied inside a worker called
+    once per active graph, without the consumption of the earlier graphs being taken off, lets a slice with n graphs do n times
+    the budget (and the orchestrator's `consumed == budget` test then misses the overshoot)."""
+    T1M = "clematis.engine.stages.t1"
+    outer = ctx.func(T1M + ":t1_propagate")
+    inner = ctx.func(T1M + ":t1_propagate._t1_one_graph")
+    rd = ctx.rd(outer)
+    # names derived from a per-slice budget key
+    derived: Dict[str, str] = {}
+    for key in ("t1_pops", "t1_iters"):
+        names = {d.name for d in rd.all_defs if d.kind == "assign" and d.value is not None and any(const_str(z) == key for z in ast.walk(d.value))}
+        for _ in range(3):
+            for d in rd.all_defs:
+                if d.kind == "assign" and d.value is not None and d.name not in names and any(isinstance(y, ast.Name) and y.id in names for y in ast.walk(d.value)):
+                    names.add(d.name)
+        for nm in names:
+            derived.setdefault(nm, key)
+    ctx.floor("C17.CLAMP", "locals of t1_propagate derived from a per-slice T1 budget", len(derived), 4)
+    inner_locals = {y.id for y in walk_no_defs(inner.node) if isinstance(y, ast.Name) and isinstance(y.ctx, ast.Store)} | set(inner.params)
+    used_as_bound = {}
+    for x in walk_no_defs(inner.node):
+        if isinstance(x, ast.Compare):
+            for y in ast.walk(x):
+                if isinstance(y, ast.Name) and y.id in derived and y.id not in inner_locals:
+                    used_as_bound.setdefault(derived[y.id], (y.id, x))
+    # the worker is called once per active graph
+    per_graph = any(isinstance(l, ast.For) and any(isinstance(c, ast.Call) and call_tail(c) == "_t1_one_graph" for c in ast.walk(l)) for l in walk_no_defs(outer.node))
+    for key, (nm, site) in sorted(used_as_bound.items()):
+        # is the bound reduced by what earlier graphs consumed? (an assignment to it inside the per-graph loop, or a parameter)
+        reduced = any(isinstance(l, ast.For) and any(isinstance(c, ast.Call) and call_tail(c) == "_t1_one_graph" for c in ast.walk(l))
+                      and any(isinstance(a, (ast.Assign, ast.AugAssign)) and any(isinstance(t, ast.Name) and t.id == nm for t in (a.targets if isinstance(a, ast.Assign) else [a.target])) for a in ast.walk(l))
+                      for l in walk_no_defs(outer.node))
+        ctx.check(not per_graph or reduced, "C17.CLAMP", f"{outer.qual}/slice-budget-is-per-slice:{key}", inner.loc(site),
+                  f"the bound derived from slice budget {key} is reduced by the work of the graphs already done",
+                  f"`{nm}` (from slice budget {key}) bounds `{src(site)[:40]}` inside the per-graph worker and is never reduced between graphs: with n active graphs the slice does up to n x {key}, "
+                  f"while the stage reports the sum and the orchestrator tests `consumed == budget` - the budget neither binds nor triggers BUDGET_{key.upper()}")
+
+
 def run(ctx) -> None:
+    rule_budget_scope(ctx)
     rule_zero_budget(ctx)
     rule_pure(ctx)
     rule_elig(ctx)
